@@ -31,7 +31,7 @@ impl TxId {
 //@|        final(self).v() != old(self).v(),   // consecutive requests never share an id
 }
 
-//@item rodbus/src/common/frame.rs | FrameDestination
+//@item rodbus/src/common/frame.rs | FrameDestination | enumeq
 impl FrameDestination {
     pub open spec fn spec_value(&self) -> u8 {
         match self { FrameDestination::UnitId(u) => u.value, FrameDestination::Broadcast => 0 }
